@@ -26,6 +26,14 @@ func (s *Sim) afterOp(op *Op) {
 	if s.OpIdx%every != 0 {
 		return
 	}
+	if p.SweepEvery > 0 && s.OpIdx%p.SweepEvery == 0 && s.lockDepth < 60 {
+		// the property's own query oracles run before the (fatal) store comparison,
+		// so that a defect visible to both is also reported under this property
+		s.opSweep(&Op{K: KSweep})
+		if s.fatal {
+			return
+		}
+	}
 	if p.StoreEvery > 0 && s.OpIdx%p.StoreEvery == 0 {
 		s.checkStore(op.K)
 	}
